@@ -1,2 +1,67 @@
-(** C08.  Only statements, [exact], and Print Assumptions. *)
-From Sheens Require Import Model.Step.
+(** C08 - Emission is atomic: a failing action emits nothing; order is
+    preserved.  Only statements, [exact], and Print Assumptions.
+
+    [run_js] is the model of Interpreter.Exec for the action language the
+    harness renders as ECMAScript (Model/Action.v): emissions are buffered
+    in the Execution; a throw, a timeout, a non-bindings return value or an
+    unserialisable emission returns NO Execution.  [step] / [walk_stride]
+    are the engine (any action type, any behaviour of actions/guards). *)
+From Sheens Require Import Model.Step Model.Action Spec.WalkSpec Proofs.StepFacts Proofs.EngineFacts.
+
+(** a script that fails - after any number of emissions, in any of the
+    modelled ways - contributes no Execution, hence no emission *)
+Theorem C08_failing_script_has_no_execution :
+  forall p bs, xr_err (run_js p bs) = true -> xr_exe (run_js p bs) = None.
+Proof. exact run_js_failure_has_no_execution. Qed.
+
+Theorem C08_failing_script_emits_nothing :
+  forall p bs, xr_err (run_js p bs) = true ->
+  func_exec act run_act (Js p) bs = ((None, []), true).
+Proof. exact js_failure_emits_nothing. Qed.
+
+(** a script that completes reports its emissions in execution order *)
+Theorem C08_success_emits_in_order :
+  forall p b, xr_err (run_js p (Some b)) = false ->
+  exists ob, xr_exe (run_js p (Some b)) = Some (ob, emits_of (pg_ops p) b).
+Proof. exact js_success_emits_in_order. Qed.
+
+Section Engine.
+Variable action : Type.
+Variable run : action -> option bindings -> exec_raw.
+Variable s : spec action.
+
+(** a stride reports exactly the emissions of its node's action: guards
+    contribute nothing, nothing is invented or re-ordered *)
+Theorem C08_stride_emits_action_output :
+  forall st pending sd,
+  so_stride (step action run s st pending) = Some sd ->
+  sd_emitted sd = action_emission action run s st.
+Proof. exact (step_emitted action run s). Qed.
+
+Theorem C08_walk_stride_emits_action_output :
+  forall st p,
+  sd_emitted (fst (walk_stride action run s st p)) = [] \/
+  sd_emitted (fst (walk_stride action run s st p)) = action_emission action run s st.
+Proof. exact (walk_stride_emitted action run s). Qed.
+
+(** a stride that went nowhere emitted nothing *)
+Theorem C08_idle_stride_silent :
+  forall st p, sd_to (fst (walk_stride action run s st p)) = None ->
+  sd_emitted (fst (walk_stride action run s st p)) = [].
+Proof. exact (walk_stride_idle_silent action run s). Qed.
+End Engine.
+
+Print Assumptions C08_failing_script_has_no_execution.
+Print Assumptions C08_failing_script_emits_nothing.
+Print Assumptions C08_success_emits_in_order.
+Print Assumptions C08_stride_emits_action_output.
+Print Assumptions C08_walk_stride_emits_action_output.
+Print Assumptions C08_idle_stride_silent.
+
+(** non-vacuity: emit twice, then throw: nothing; emit twice and return: both, in order *)
+Example C08_nonvacuous :
+  func_exec act run_act (Js (mk_prog [AEmit (JNum 4); AEmit (JNum 8)] TThrow)) (Some [])
+  = ((None, []), true) /\
+  func_exec act run_act (Js (mk_prog [AEmit (JNum 4); AEmit (JNum 8)] TRetBindings)) (Some [])
+  = ((Some [], [JNum 4; JNum 8]), false).
+Proof. vm_compute. auto. Qed.
